@@ -277,8 +277,8 @@ void verif_out_chunk(const Chunk *pc)
               static_cast<unsigned int>(cpd.spaces), cpd.last_char, cpd.did_newline ? 1 : 0);
       return;
    }
-   fprintf(fp, "OC i=%zu t=%s col=%zu dn=%d\n", verif_index[pc], get_token_name(pc->GetType()),
-           cpd.column, cpd.did_newline ? 1 : 0);
+   fprintf(fp, "OC i=%zu t=%s col=%zu dn=%d pcol=%zu ci=%zu\n", verif_index[pc], get_token_name(pc->GetType()),
+           cpd.column, cpd.did_newline ? 1 : 0, pc->GetColumn(), pc->GetColumnIndent());
 }
 
 
